@@ -315,4 +315,3 @@ func runC10(c *gen.Ctx) error {
 	c.DoParallel("run", ins, workers)
 	return nil
 }
-
